@@ -293,6 +293,29 @@ func init() {
 			}
 			keys := genKeySet(r, kind, 2)
 			offs := c12Offsets(r, len(keys), tc.Mode, tc.MaxBlk)
+			if i%25 == 7 {
+				// directed shape: a wide top level (more than 10 different first bytes) of which
+				// only two branches keep a record start, because most first bytes lie inside one
+				// block, followed by a dense sub-level: one key, then 11..14 keys x+c each with its
+				// own block, then one block holding x+last and a run of single-byte keys
+				tc.Mode, tc.MaxBlk, tc.Kind = "block", 64, "wide-top-sparse-kept"
+				a := byte(0x20 + r.Intn(0x40))
+				x := a + 1
+				fan := 11 + r.Intn(4)
+				keys = []string{string([]byte{a})}
+				offs = []int64{0}
+				for j := 0; j < fan; j++ {
+					keys = append(keys, string([]byte{x, 'a' + byte(j)}))
+					offs = append(offs, int64(100*(j+1)))
+				}
+				last := int64(100 * (fan + 1))
+				keys = append(keys, string([]byte{x, 'a' + byte(fan)}))
+				offs = append(offs, last)
+				for j := 0; j < 10+r.Intn(6); j++ {
+					keys = append(keys, string([]byte{x + 1 + byte(j)}))
+					offs = append(offs, last)
+				}
+			}
 			for j, k := range keys {
 				tc.Recs = append(tc.Recs, c12Rec{Key: k, Off: offs[j], Val: randBytes(r, r.Intn(7))})
 			}
